@@ -173,7 +173,7 @@ def judge(res, pid, traces, workdir, monitors=etrace.ALL_MONITORS, nontrivial=No
     verdicts, stats, byid = etrace.validate(traces, workdir, monitors=monitors, exact_expected=exact_expected)
     for t in stats.pop("inexact"):
         res.traces += 1
-        if pid in clause_property(t["cfg"]["rule"], "Scores") | {"C04"} & {pid}:
+        if pid in clause_property(t["cfg"]["rule"], "Scores"):
             big = [x for x in rats_in({a: b for a, b in t.items() if not a.startswith("_")}) if abs(x[0]) > RAT_BOUND or x[1] > RAT_BOUND][:2]
             res.violation("%s:Inexact:-" % t["cfg"]["rule"], "a recorded tally is not the exact rational the small exact inputs imply "
                           "(e.g. %s): not exact rational arithmetic" % big, {"input": t["_inp"], "trace": {k: x for k, x in t.items() if not k.startswith("_")}})
